@@ -94,3 +94,67 @@ package ice
 
 // The address map object is created with the mux and never replaced.
 //@ immutable C12 ice.UDPMuxDefault.addressMap in NewUDPMuxDefault
+
+// ---------------------------------------------------------------------------
+// Per-connection FIFO (linked list of buffer holders under the connection mutex).
+// gLog records the holders in arrival order, gE / gD count enqueued / dequeued
+// holders: the queue is the window gLog[gD..gE).
+//@ ghost field ice.udpMuxedConn.gE int
+//@ ghost field ice.udpMuxedConn.gD int
+//@ ghost field ice.udpMuxedConn.gLog seq
+//@ lockprotects ice.udpMuxedConn.mu bufHead, bufTail, closed, gE, gD, gLog
+//@ lockinv C12 ice.udpMuxedConn.mu fifo-window: 0 <= this.gD && this.gD <= this.gE && ((this.gD == this.gE) == (this.bufTail == nil)) && ((this.gD == this.gE) == (this.bufHead == nil))
+//@ lockinv C12 ice.udpMuxedConn.mu fifo-ends: this.gD < this.gE ==> this.bufTail == cast(this.gLog[this.gD], *bufferHolder) && this.bufHead == cast(this.gLog[this.gE - 1], *bufferHolder) && this.bufHead.next == nil
+//@ lockinv C12 ice.udpMuxedConn.mu fifo-links: forall i int :: this.gD <= i && i < this.gE - 1 ==> cast(this.gLog[i], *bufferHolder).next == cast(this.gLog[i + 1], *bufferHolder)
+//@ lockinv C12 ice.udpMuxedConn.mu fifo-holders-distinct: (forall i int :: this.gD <= i && i < this.gE ==> this.gLog[i] != 0) && (forall i int, j int :: this.gD <= i && i < j && j < this.gE ==> this.gLog[i] != this.gLog[j])
+
+//@ lockinv C12 ice.udpMuxedConn.mu closed-conn-has-an-empty-queue: this.closed ==> this.gD == this.gE
+
+// ASSUMED (pool discipline, listed): a holder handed out by the pool is idle - it is
+// not linked into this queue and its next pointer is nil (every Put is preceded by reset
+// or follows a Get).
+//@ func (*udpMuxedConn).writePacket
+//@   props C12
+//@   ghostvar eAtLock int = 0
+//@   ghostvar dAtLock int = 0
+//@   ghostvar logAtLock seq = c.gLog
+//@   site call Get#1 assume after pool-buffer-is-not-the-callers-buffer: cast(result.payload, *bufferHolder).buf.base != data.base
+//@   site call Lock#1 assume after pool-holder-is-idle: pkt != nil && pkt.next == nil && (forall i int :: c.gD <= i && i < c.gE ==> c.gLog[i] != pkt)
+//@   site call Lock#1 ghost after eAtLock := c.gE
+//@   site call Lock#1 ghost after dAtLock := c.gD
+//@   site call Lock#1 ghost after logAtLock := c.gLog
+//@   site call Lock#1 assert holder-has-the-datagrams-length: len(pkt.buf) == len(data)
+//@   site call Lock#1 assert holder-carries-the-datagram: forall i int :: 0 <= i && i < len(data) ==> pkt.buf[i] == data[i]
+//@   site call Lock#1 assert holder-carries-the-true-source: pkt.sourceAddrPort == sourceAddrPort && pkt.sourceAddr == sourceAddr
+//@   site store bufHead#1 ghost c.gLog := store(c.gLog, c.gE, pkt)
+//@   site store bufHead#1 ghost c.gE := c.gE + 1
+//@   site call Unlock#2 assert appended-behind-everything-queued: c.gE == eAtLock + 1 && c.gD == dAtLock && c.gLog[eAtLock] == pkt && (forall i int :: dAtLock <= i && i < eAtLock ==> c.gLog[i] == logAtLock[i])
+//@   site call Unlock#1 assert closed-conn-queues-nothing: c.closed && c.gE == eAtLock && c.gD == dAtLock
+
+// Dequeue: the oldest queued holder, exactly its bytes and its recorded source.
+//@ func (*udpMuxedConn).readPacket
+//@   props C12
+//@   ghostvar eAtLock int = 0
+//@   ghostvar dAtLock int = 0
+//@   site call Lock#1 ghost after eAtLock := c.gE
+//@   site call Lock#1 ghost after dAtLock := c.gD
+//@   loop 1 invariant no-error-carried-into-the-next-round: err == nil
+//@   site store bufTail#1 ghost c.gD := c.gD + 1
+//@   site call Unlock#1 assert dequeues-the-oldest-datagram: dAtLock < eAtLock && pkt == cast(c.gLog[dAtLock], *bufferHolder) && c.gD == dAtLock + 1 && c.gE == eAtLock
+//@   site call copy#1 assume before callers-buffer-is-not-a-pooled-buffer: b.base != pkt.buf.base
+//@   site call reset#1 assert delivers-the-whole-datagram-with-its-source: err == nil ==> n == len(pkt.buf) && addrPort == pkt.sourceAddrPort && udpAddr == pkt.sourceAddr
+//@   site call reset#1 assert delivers-exactly-the-holders-bytes: err == nil ==> forall i int :: 0 <= i && i < n ==> b[i] == pkt.buf[i]
+//@   site call reset#1 assert short-buffer-delivers-nothing: err != nil ==> n == 0 && len(b) < len(pkt.buf)
+//@   site call Unlock#2 assert empty-closed-conn-reports-eof: c.closed && c.gD == c.gE
+
+// Close drops everything still queued (under the lock, keeping the queue shape)
+// and marks the connection closed; every other user of the connection mutex only reads the queue.
+//@ func (*udpMuxedConn).Close
+//@   props C12
+//@   opt nosafety
+//@   site store bufTail#1 ghost c.gD := c.gE
+//@   site call Unlock#1 assert closed-and-empty: c.closed && c.gD == c.gE && c.bufTail == nil && c.bufHead == nil
+//@ enumerate C12 stores ice.udpMuxedConn.bufHead in (*udpMuxedConn).readPacket, (*udpMuxedConn).writePacket, (*udpMuxedConn).Close
+//@ enumerate C12 stores ice.udpMuxedConn.bufTail in (*udpMuxedConn).readPacket, (*udpMuxedConn).writePacket, (*udpMuxedConn).Close
+//@ enumerate C12 stores ice.bufferHolder.next in (*udpMuxedConn).writePacket, (*bufferHolder).reset
+//@ enumerate C12 stores ice.udpMuxedConn.closed in (*udpMuxedConn).Close
